@@ -23,6 +23,8 @@ type crashJob struct {
 	chain     int         // further crash/recover cycles inside the continuation
 	seed      uint64
 	replay    interface{}
+	classSig  string // when set, every failure of this job is reported under this one signature
+	ignore    string // table whose CREATE was in flight at the crash: not judged
 	noSecond  bool // skip the second recovery (C04 judges start-up and contents only)
 	real      bool // produced by a real SIGKILL
 	// results
@@ -89,13 +91,13 @@ func verifyCrashJobs(c *core.Ctx, prop, drv, cwd string, jobs []*crashJob) {
 			if o.diedAt < len(blocks[i].ops) {
 				opk = blocks[i].ops[o.diedAt].K
 			}
-			c.Violation(prop+":recovery-crashed-process:"+errClass(core.FatalTail(o.stderr)), fmt.Sprintf("[%s] driver process died during %s after the crash: %s", j.label, opk, core.FatalTail(o.stderr)), j.replay)
+			c.Violation(j.sig(prop+":recovery-crashed-process:"+errClass(core.FatalTail(o.stderr))), fmt.Sprintf("[%s] driver process died during %s after the crash: %s", j.label, opk, core.FatalTail(o.stderr)), j.replay)
 			continue
 		}
 		bad := false
 		for k, r := range o.res {
 			if r.Panic != "" {
-				c.Violation(prop+":recovery-panic:"+r.Frame, fmt.Sprintf("[%s] %s panicked: %s", j.label, blocks[i].ops[k].K, r.Panic), j.replay)
+				c.Violation(j.sig(prop+":recovery-panic:"+r.Frame), fmt.Sprintf("[%s] %s panicked: %s", j.label, blocks[i].ops[k].K, r.Panic), j.replay)
 				bad = true
 				break
 			}
@@ -105,7 +107,7 @@ func verifyCrashJobs(c *core.Ctx, prop, drv, cwd string, jobs []*crashJob) {
 				if k > 5 {
 					phase = "second-recovery"
 				}
-				c.Violation(prop+":"+phase+"-failed:"+what+":"+errClass(r.Err), fmt.Sprintf("[%s] %s after the crash returned: %s", j.label, what, r.Err), j.replay)
+				c.Violation(j.sig(prop+":"+phase+"-failed:"+what+":"+errClass(r.Err)), fmt.Sprintf("[%s] %s after the crash returned: %s", j.label, what, r.Err), j.replay)
 				bad = true
 				break
 			}
@@ -121,6 +123,9 @@ func verifyCrashJobs(c *core.Ctx, prop, drv, cwd string, jobs []*crashJob) {
 			c.Count("recoveries_nothing_to_replay", 1)
 		}
 		d1 := o.res[5].Tables
+		if j.ignore != "" {
+			d1 = model.StripTable(d1, j.ignore)
+		}
 		j.dump = d1
 		var lastDiff *model.Diff
 		for ci, cand := range j.cands {
@@ -137,13 +142,17 @@ func verifyCrashJobs(c *core.Ctx, prop, drv, cwd string, jobs []*crashJob) {
 			if len(j.cands) > 1 {
 				what = fmt.Sprintf("state matches none of the %d allowed states; against the full statement: %s", len(j.cands), what)
 			}
-			c.Violation(lastDiff.Sig, fmt.Sprintf("[%s] %s", j.label, what), j.replay)
+			c.Violation(j.sig(lastDiff.Sig), fmt.Sprintf("[%s] %s", j.label, what), j.replay)
 			continue
 		}
 		if !j.noSecond {
-			if df := j.cands[j.matched].CheckDump(prop+":after-second-recovery", o.res[10].Tables, nil, false); df != nil {
+			d2 := o.res[10].Tables
+			if j.ignore != "" {
+				d2 = model.StripTable(d2, j.ignore)
+			}
+			if df := j.cands[j.matched].CheckDump(prop+":after-second-recovery", d2, nil, false); df != nil {
 				j.failed = true
-				c.Violation(df.Sig, fmt.Sprintf("[%s] recovery run a second time changed the state: %s", j.label, df.What), j.replay)
+				c.Violation(j.sig(df.Sig), fmt.Sprintf("[%s] recovery run a second time changed the state: %s", j.label, df.What), j.replay)
 				continue
 			}
 			c.Count("second_recoveries_checked", 1)
@@ -205,14 +214,14 @@ func verifyCrashJobs(c *core.Ctx, prop, drv, cwd string, jobs []*crashJob) {
 		for k, r := range o.res {
 			mt := metas[i][k]
 			if r.Panic != "" {
-				c.Violation(prop+":continuation:panic:"+r.Frame, fmt.Sprintf("[%s] %s after recovery panicked: %s", j.label, mt.kind, r.Panic), j.replay)
+				c.Violation(j.sig(prop+":continuation:panic:"+r.Frame), fmt.Sprintf("[%s] %s after recovery panicked: %s", j.label, mt.kind, r.Panic), j.replay)
 				ok = false
 				break
 			}
 			switch mt.kind {
 			case "stmt":
 				if r.Err != "" {
-					c.Violation(prop+":continuation:statement-failed:"+mt.stmt.Kind+":"+errClass(r.Err), fmt.Sprintf("[%s] after recovery, %s returned: %s", j.label, clip(model.RenderStmt(mt.stmt, model.Plain), 200), r.Err), j.replay)
+					c.Violation(j.sig(prop+":continuation:statement-failed:"+mt.stmt.Kind+":"+errClass(r.Err)), fmt.Sprintf("[%s] after recovery, %s returned: %s", j.label, clip(model.RenderStmt(mt.stmt, model.Plain), 200), r.Err), j.replay)
 					ok = false
 					break
 				}
@@ -223,12 +232,12 @@ func verifyCrashJobs(c *core.Ctx, prop, drv, cwd string, jobs []*crashJob) {
 				c.Count("continuation_statements", 1)
 			case "dump":
 				if r.Err != "" {
-					c.Violation(prop+":continuation:dump-failed:"+errClass(r.Err), fmt.Sprintf("[%s] %s", j.label, r.Err), j.replay)
+					c.Violation(j.sig(prop+":continuation:dump-failed:"+errClass(r.Err)), fmt.Sprintf("[%s] %s", j.label, r.Err), j.replay)
 					ok = false
 					break
 				}
 				if df := m.CheckDump(prop+":continuation", r.Tables, grave, true); df != nil {
-					c.Violation(df.Sig, fmt.Sprintf("[%s] after recovery (cycle %d): %s", j.label, cycle, df.What), j.replay)
+					c.Violation(j.sig(df.Sig), fmt.Sprintf("[%s] after recovery (cycle %d): %s", j.label, cycle, df.What), j.replay)
 					ok = false
 				}
 			case "init", "use":
@@ -237,12 +246,12 @@ func verifyCrashJobs(c *core.Ctx, prop, drv, cwd string, jobs []*crashJob) {
 					c.Count("chained_recoveries", 1)
 				}
 				if r.Err != "" {
-					c.Violation(prop+":continuation:"+mt.kind+"-failed:"+errClass(r.Err), fmt.Sprintf("[%s] %s (cycle %d) returned: %s", j.label, mt.kind, cycle, r.Err), j.replay)
+					c.Violation(j.sig(prop+":continuation:"+mt.kind+"-failed:"+errClass(r.Err)), fmt.Sprintf("[%s] %s (cycle %d) returned: %s", j.label, mt.kind, cycle, r.Err), j.replay)
 					ok = false
 				}
 			default:
 				if r.Err != "" {
-					c.Violation(prop+":continuation:op-failed:"+errClass(r.Err), fmt.Sprintf("[%s] %s returned: %s", j.label, bblocks[i].ops[k].K, r.Err), j.replay)
+					c.Violation(j.sig(prop+":continuation:op-failed:"+errClass(r.Err)), fmt.Sprintf("[%s] %s returned: %s", j.label, bblocks[i].ops[k].K, r.Err), j.replay)
 					ok = false
 				}
 			}
@@ -254,7 +263,7 @@ func verifyCrashJobs(c *core.Ctx, prop, drv, cwd string, jobs []*crashJob) {
 			if o.timedOut {
 				c.Inconclusive("watchdog", "continuation exceeded the watchdog")
 			} else {
-				c.Violation(prop+":continuation:process-died:"+errClass(core.FatalTail(o.stderr)), fmt.Sprintf("[%s] driver died during the continuation: %s", j.label, core.FatalTail(o.stderr)), j.replay)
+				c.Violation(j.sig(prop+":continuation:process-died:"+errClass(core.FatalTail(o.stderr))), fmt.Sprintf("[%s] driver died during the continuation: %s", j.label, core.FatalTail(o.stderr)), j.replay)
 			}
 			ok = false
 		}
@@ -267,6 +276,13 @@ func verifyCrashJobs(c *core.Ctx, prop, drv, cwd string, jobs []*crashJob) {
 			j.failedB = true
 		}
 	}
+}
+
+func (j *crashJob) sig(s string) string {
+	if j.classSig != "" {
+		return j.classSig
+	}
+	return s
 }
 
 func imgDir(caseDir string, i int, tag string) string {
